@@ -2,6 +2,7 @@ package rules
 
 import (
 	"fmt"
+	"go/constant"
 	"go/token"
 	"go/types"
 	"strings"
@@ -19,7 +20,8 @@ func init() {
 			"(R1) publication order: in Signal.setSlow the error (and a fresh closed channel) are stored before the status word, which is stored before close(ch); in signalSlow the channel is stored before the status word; in Chan.doSlow the done flag is published after the initialiser ran; nothing is stored to the published fields after the flag; " +
 			"(R2) every plain write of Signal.err/ch and Chan.ch/closed happens under the object's mutex (initialisers passed to Chan.do run under it), and every plain read is under the mutex, after a critical section of it, or behind the atomic flag test with the matching bit; " +
 			"(R3) first set wins: the body of setSlow runs only if the error bit was clear when tested under the mutex, and reports ok only from that branch; the status word is only ever written with atomic stores; " +
-			"(R4) close-once for every close(ch) in drpcsignal.",
+			"(R4) close-once for every close(ch) in drpcsignal; " +
+			"(R7) Signal.ch is assigned only on a branch where the channel-created bit of a status value read under the mutex is clear (so every observer gets the same channel), close(s.ch) runs only where that bit was set (so the shared, already closed sentinel is never closed), and wherever the sentinel is installed the state that disables a later close is recorded in the same critical section.",
 		NotDecided:  "linearisability of Set/Get/Err/IsSet/Signal/Wait and of the lazy channel under the Go memory model for all interleavings: these are the orderings such an argument needs, not the argument.",
 		Assumptions: []string{"sync/atomic loads and stores are sequentially consistent (Go memory model); sync.Mutex provides the usual happens-before edges"},
 		Rules: []Rule{
@@ -29,6 +31,7 @@ func init() {
 			{ID: "C19.R4", Doc: "close-once for every close(ch) in drpcsignal", Run: func(c *an.Ctx) { closeOnce(c, "drpcsignal") }},
 			{ID: "C19.R6", Doc: "every Signal accessor decides from ONE atomic snapshot of the status word (no result pair assembled from two loads)", Run: c19r6},
 			{ID: "C19.R5", Doc: "lazy channel: the initialiser runs only if done is still clear when re-tested under Chan.mu (first user wins)", Run: c19r5},
+			{ID: "C19.R7", Doc: "a Signal's channel is installed once (only while the channel-created bit, read under the mutex, is clear) and closed only if that bit was set; the shared closed sentinel is installed together with the state that disables close()", Run: c19r7},
 		},
 	})
 }
@@ -551,4 +554,144 @@ func c19r6(c *an.Ctx) {
 			"the accessor loads the status word more than once on a path (directly or through another accessor): a Set landing between the loads yields an inconsistent answer, e.g. Get() returning (nil, true)")
 	}
 	c.Floor("lock-free Signal accessors", 1, n)
+}
+
+func pkgConstInt(c *an.Ctx, pkg, name string) int64 {
+	tp := must(c.P.TypePkg(pkg))
+	k, ok := tp.Scope().Lookup(name).(*types.Const)
+	if !ok {
+		panic(&an.Unresolved{What: pkg + "." + name})
+	}
+	v, _ := constant.Int64Val(constant.ToInt(k.Val()))
+	return v
+}
+
+func c19r7(c *an.Ctx) {
+	a := A(c)
+	pl := locksOf(c, "drpcsignal")
+	status := a.field("drpcsignal", "Signal", "status")
+	smu := a.field("drpcsignal", "Signal", "mu")
+	sch := a.field("drpcsignal", "Signal", "ch")
+	cch := a.field("drpcsignal", "Chan", "ch")
+	cclosed := a.field("drpcsignal", "Chan", "closed")
+	created := pkgConstInt(c, "drpcsignal", "statusChannelCreated")
+	errSet := pkgConstInt(c, "drpcsignal", "statusErrorSet")
+	isSentinel := func(v ssa.Value) bool {
+		u, ok := an.Resolve(v).(*ssa.UnOp)
+		if !ok || u.Op != token.MUL {
+			return false
+		}
+		g, ok := u.X.(*ssa.Global)
+		return ok && g.Name() == "closed" && g.Pkg != nil && g.Pkg.Pkg.Name() == "drpcsignal"
+	}
+	// createdBit(g): the guard tests (snapshot & created) against 0; returns the snapshot and whether the bit is set on this path
+	createdBit := func(g an.Guard, fn *ssa.Function) (snap ssa.Value, set, ok bool) {
+		cmp, isCmp := an.CmpOf(g)
+		if !isCmp || (cmp.Op != token.EQL && cmp.Op != token.NEQ) {
+			return nil, false, false
+		}
+		x, y := cmp.X, cmp.Y
+		if k, isK := an.ConstInt(x); isK && k == 0 {
+			x, y = y, x
+		}
+		if k, isK := an.ConstInt(y); !isK || k != 0 {
+			return nil, false, false
+		}
+		and, isAnd := x.(*ssa.BinOp)
+		if !isAnd || and.Op != token.AND {
+			return nil, false, false
+		}
+		m, isM := an.ConstInt(and.Y)
+		sv := and.X
+		if !isM {
+			m, isM = an.ConstInt(and.X)
+			sv = and.Y
+		}
+		if !isM || m != created {
+			return nil, false, false
+		}
+		ld, isLd := an.Resolve(sv).(*ssa.UnOp)
+		if !isLd || !isLoadOfField(ld, status) || len(fn.Params) == 0 || !pl.MustHoldClass(ld, fn.Params[0], smu) {
+			return nil, false, false
+		}
+		return ld, cmp.Op == token.NEQ, true
+	}
+	nStore, nClose, nSent := 0, 0, 0
+	for _, fn := range must(c.P.SourceFuncs("drpcsignal")) {
+		var sentinelSnap ssa.Value
+		var closes []ssa.Instruction
+		closeSnap := map[ssa.Instruction]ssa.Value{}
+		for _, st := range fieldStores(fn, sch) {
+			nStore++
+			var snap ssa.Value
+			okG := false
+			for _, g := range an.GuardsOf(st.Block()) {
+				if sv, set, ok := createdBit(g, fn); ok && !set {
+					okG, snap = true, sv
+				}
+			}
+			c.Check(okG, an.ShortFunc(fn)+" | Signal.ch is assigned only while the channel-created bit (read under Signal.mu) is clear", c.At(st), "",
+				"the signal's channel can be replaced after an observer already obtained it: that observer waits on a channel Set never closes (lost wake-up)")
+			if isSentinel(st.Val) {
+				nSent++
+				sentinelSnap = snap
+				// the status published afterwards must carry both bits
+				okPub := false
+				an.Instrs(fn, func(in ssa.Instruction) {
+					if v, ok := isAtomicStoreTo(in, status); ok && an.CanReach(st, in) {
+						if k, isK := an.ConstInt(v); isK && k&created != 0 && k&errSet != 0 {
+							okPub = true
+						}
+					}
+				})
+				c.Check(okPub, an.ShortFunc(fn)+" | installing the closed sentinel is followed by publishing both status bits", c.At(st), "",
+					"the shared closed channel is installed without marking the signal set and its channel created in the same critical section: a later path can close the sentinel (panic) or replace it")
+			}
+		}
+		an.Instrs(fn, func(in ssa.Instruction) {
+			call, ok := in.(*ssa.Call)
+			if !ok {
+				return
+			}
+			b, isB := call.Common().Value.(*ssa.Builtin)
+			if !isB || b.Name() != "close" || len(call.Common().Args) != 1 || !isLoadOfField(call.Common().Args[0], sch) {
+				return
+			}
+			nClose++
+			closes = append(closes, in)
+			okG := false
+			for _, g := range an.GuardsOf(in.Block()) {
+				if sv, set, ok := createdBit(g, fn); ok && set {
+					okG = true
+					closeSnap[in] = sv
+				}
+			}
+			c.Check(okG, an.ShortFunc(fn)+" | close(s.ch) only if the channel-created bit (read under Signal.mu) was set", c.At(in), "",
+				"close(s.ch) can run on the shared, already closed sentinel (close of closed channel panics with Signal.mu held)")
+		})
+		if sentinelSnap != nil {
+			for _, cl := range closes {
+				c.Check(closeSnap[cl] == sentinelSnap, an.ShortFunc(fn)+" | sentinel install and close(s.ch) are decided by the same status snapshot", c.At(cl), "",
+					"the two decisions read the status word separately: both can run in one call")
+			}
+		}
+		// Chan: the sentinel comes with closed = true
+		for _, st := range fieldStores(fn, cch) {
+			if !isSentinel(st.Val) {
+				continue
+			}
+			nSent++
+			okC := false
+			for _, s2 := range fieldStores(fn, cclosed) {
+				if cst, isC := s2.Val.(*ssa.Const); isC && cst.Value != nil && cst.Value.String() == "true" && s2.Block() == st.Block() {
+					okC = true
+				}
+			}
+			c.Check(okC, an.ShortFunc(fn)+" | installing the closed sentinel in a Chan records closed = true in the same step", c.At(st), "",
+				"the shared closed channel is installed while Chan.closed stays false: a concurrent Close sees !closed and closes the sentinel (panic with Chan.mu held, every later Close deadlocks)")
+		}
+	}
+	c.Floor("stores to Signal.ch", 1, nStore)
+	c.Floor("close(s.ch) sites", 1, nClose)
+	c.Floor("installations of the closed sentinel", 1, nSent)
 }
